@@ -14,7 +14,24 @@ def main():
     a = ap.parse_args()
     seed = int(os.environ.get("VERIF_SEED", "1"))
     tier = a.tier if a.tier in ("quick", "thorough") else "quick"
-    sys.exit(runner.main(a.prop, tier, seed, a.replay))
+    try:
+        rc = runner.main(a.prop, tier, seed, a.replay)
+    except SystemExit:
+        raise
+    except BaseException as ex:      # noqa: the machinery itself failed on what the implementation returned
+        import json
+        import traceback
+        tb = traceback.format_exc()
+        sys.stderr.write(tb)
+        os.makedirs(os.path.join(runner.ROOT, "replays"), exist_ok=True)
+        path = os.path.join(runner.ROOT, "replays", "%s-harness-error.json" % a.prop)
+        with open(path, "w") as f:
+            json.dump({"property": a.prop, "what": "the correspondence check could not be completed: the harness failed while "
+                       "interpreting what the implementation returned (model / implementation correspondence no longer checks)",
+                       "exception": repr(ex), "traceback": tb[-4000:]}, f, indent=1)
+        print("VIOLATION property=%s replay=%s no-failing-input-found" % (a.prop, path))
+        rc = 1
+    sys.exit(rc)
 
 
 main()
